@@ -11,13 +11,15 @@ def main():
     maxlvl = D.B.parse_max_levels() or 100
     trees = D.make_trees(ctx.rng, ctx.thorough, maxlvl)
     cases = []
-    for k, (suite, root, tree, klass) in enumerate(trees):
+    for k, tr in enumerate(trees):
+        suite, root, tree, klass = tr[:4]
         for pb, ind, pf in D.settings_for(ctx.rng, klass, k):
-            cases.append((suite, root, tree, klass, pb, ind, pf))
+            cases.append((suite, root, tree, klass, pb, ind, pf) + tuple(tr[4:5]))
     mism, stats = D.round_trip_check(ctx, cases)
     hist = {}
     for c in cases: hist[c[3]] = hist.get(c[3], 0) + 1
     print('c05b_selftest: seed %d, %d cases %r' % (seed, len(cases), hist))
+    for rp in stats.pop('frame_limit_replays', [])[:3]: print('FINDING parser-frame-limit replay: %r' % rp)
     print('c05b_selftest: stats %r, %.1f s' % (stats, time.time() - t0))
     keys = {}
     for m in mism: keys.setdefault(m['key'], []).append(m)
